@@ -1,15 +1,15 @@
 SPECIFICATION MCSpec
 CONSTANTS
   InstOf <- Ident
-  W = 64
-  Widths = {1, 3, 5, 7, 13, 31, 33, 63}
-  NThreads = {2}
-  Menu = {"field"}
-  AllValues = TRUE
+  W = 8
+  Widths = {3, 5}
+  NThreads = {3}
+  Menu = {"near"}
+  AllValues = FALSE
   Rots = {0}
-  PatSet = {"zeros", "ones", "alt"}
+  PatSet = {"alt"}
   Boundaries = {1}
-  NearFields = 0
+  NearFields = 4
   EFN = {}
   EFMaxThreads = 3
   MaxT = 3
